@@ -24,11 +24,18 @@ IN_SHAPES = [
     lambda n: {'name': n, 'dir': 'in', 'reply': ['Res'], 'formals': [F('a', 'U'), F('b', 'T', 'inout')]},
     lambda n: {'name': n, 'dir': 'in', 'reply': ['void'], 'formals': [F('x', 'T', 'inout'), F('y', 'T', 'out')]},
     lambda n: {'name': n, 'dir': 'in', 'reply': ['bool'], 'formals': [F('a', 'T'), F('b', 'U')]},
+    # out / inout parameters declared BEFORE in parameters of the same C++ type (argument order must survive)
+    lambda n: {'name': n, 'dir': 'in', 'reply': ['void'], 'formals': [F('r', 'T', 'out'), F('k', 'T')]},
+    lambda n: {'name': n, 'dir': 'in', 'reply': ['bool'], 'formals': [F('x', 'T', 'inout'), F('k', 'T'), F('z', 'T', 'out')]},
+    # a parameter whose extern maps to a C++ reference type
+    lambda n: {'name': n, 'dir': 'in', 'reply': ['void'], 'formals': [F('s', 'R'), F('t', 'T')]},
 ]
 OUT_SHAPES = [
     lambda n: {'name': n, 'dir': 'out', 'reply': ['void'], 'formals': []},
     lambda n: {'name': n, 'dir': 'out', 'reply': ['void'], 'formals': [F('a', 'T')]},
     lambda n: {'name': n, 'dir': 'out', 'reply': ['void'], 'formals': [F('a', 'U'), F('b', 'T')]},
+    lambda n: {'name': n, 'dir': 'out', 'reply': ['void'], 'formals': [F('a', 'T'), F('b', 'T'), F('c', 'T')]},
+    lambda n: {'name': n, 'dir': 'out', 'reply': ['void'], 'formals': [F('s', 'R'), F('t', 'R')]},
 ]
 IN_NAMES = ['Go', 'Stop', 'Set', 'Get', 'Toast', 'Initialize', 'cancel']
 OUT_NAMES = ['Done', 'Fail', 'Ok', 'changed', 'Tick']
@@ -43,7 +50,9 @@ def gen_model(rng, want_mc=None, nports=None, clash=False):
     different externs, and all ports are MTS so that both are looked up in one build."""
     cns = rng.choice([[], ['A'], ['A', 'B'], ['My']])
     ns_pool = [cns, cns[:-1] if cns else [], ['Lib'], ['Lib2', 'Sub']]
-    decls = [model.new_decl('extern', ['T'], cpp=T1)]
+    if len(cns) == 2:
+        ns_pool.append([cns[-1]])       # a global namespace named like the component's innermost one (shadowing in C++)
+    decls = [model.new_decl('extern', ['T'], cpp=T1), model.new_decl('extern', ['R'], cpp='const ::vt::T1&')]
     fields = rng.choice([['Ok', 'No'], ['No', 'Ok', 'Busy']])
     nested_enum = rng.random() < 0.4
     mc_on = rng.random() < 0.5 if want_mc is None else want_mc
@@ -144,6 +153,8 @@ def cmd_line(cmd):
         return f'register {cmd["id"]}'
     if c == 'script':
         return f'script {cmd["port"]} {cmd["event"]} {cmd["v"]}'
+    if c == 'react':
+        return f'react {cmd["port"]} {cmd["event"]} {cmd["out"]}'
     if c == 'call':
         return f'call {cmd["who"]} {cmd["port"]} {cmd["client"] or "-"} {cmd["event"]} ' + ' '.join(map(str, cmd['args']))
     if c == 'raise':
@@ -194,8 +205,14 @@ def event_script(route, origin, rng, length, grant, mc_focus=False):
             out.append(token[0])
         return out
 
+    reactive = [(r, o) for r in route if r['kind'] == 'provides-in'
+                for o in route if o['kind'] == 'provides-out' and o['port'] == r['port']]
     for _ in range(length):
         roll = rng.random()
+        if roll < 0.04 and reactive:
+            rin, rout = rng.choice(reactive)
+            cmds.append({'c': 'react', 'port': rin['port'], 'event': rin['event'], 'out': rout['event']})
+            continue
         if roll < 0.12:
             if not route:
                 continue
@@ -742,9 +759,17 @@ def wiring_net(chk, eng, tier, seed, count):
         jobs.append((decls, cfg, grant, i))
     with multiprocessing.Pool(min(core.NCPU, 16)) as pool:
         scanned = [r for r in pool.map(scan_model, jobs, chunksize=20) if r is not None]
+    def for_tlc(decls):
+        out = []
+        for dcl in decls:
+            dcl = dict(dcl, cppref=False)
+            if dcl['kind'] == 'extern' and dcl['cpp'].rstrip().endswith('&'):
+                dcl['cpp'], dcl['cppref'] = dcl['cpp'].rstrip()[:-1].rstrip(), True
+            out.append(dcl)
+        return out
     traces = []
     for rec in scanned:
-        traces.append({'id': f'w{rec["idx"]}', 'events': [{'decls': rec['decls'], 'cfg': rec['cfg'], 'scan': True, 'wiring': rec['facts'],
+        traces.append({'id': f'w{rec["idx"]}', 'events': [{'decls': for_tlc(rec['decls']), 'cfg': rec['cfg'], 'scan': True, 'wiring': rec['facts'],
                                                           'obs': {'ok': True, 'stage': 'build', 'family': '', 'files': 8, 'exc': ''}}]})
         chk.count(('wiring', rec['idx']))
     chk.extra['wiring_models_scanned'] = len(scanned)
